@@ -47,7 +47,8 @@ class Injected(Exception):
     """custom exception with non-string args (picklable: it may be raised inside a pool worker)"""
 
 
-FAULTS = [ValueError("injected"), KeyError("injected"), RecursionError("injected"), UnicodeDecodeError("utf-8", b"\xff", 0, 1, "injected"),
+FAULTS = [ValueError(""), KeyError(), Exception(), ValueError("first line\nsecond line"), RuntimeError("non-ascii \u00e9 \U0001F600 message"), ValueError("x" * 70000),
+          ValueError("injected"), KeyError("injected"), RecursionError("injected"), UnicodeDecodeError("utf-8", b"\xff", 0, 1, "injected"),
           Injected({"not": "a string"}, 3), AttributeError("injected"), IndexError("injected"), TypeError("injected"), OSError("injected"), ZeroDivisionError("injected")]
 
 
@@ -101,6 +102,56 @@ class TraceConn(H.Recorder):
     def send_notification(self, method, params):
         json.dumps({"jsonrpc": "2.0", "method": method, "params": params})
         self.trace.append(("notif", method, params))
+
+
+class RealWriteConn:
+    """scripted read side, REAL write side: responses, errors and notifications go through fortls' own JSONRPC2Connection (framing and
+    serialisation included) into a byte buffer, which our strict reader turns back into trace events at every read and at the end"""
+
+    def __init__(self, script):
+        import io
+        from fortls.jsonrpc import JSONRPC2Connection, ReadWriter
+        self.buf = io.BytesIO()
+        self.real = JSONRPC2Connection(ReadWriter(io.BytesIO(b""), self.buf))
+        self.script = list(script)
+        self.trace = []
+        self.pos = 0
+        self.framing_errors = []
+
+    def drain(self):
+        from vf.dsub import parse_stream
+        data = self.buf.getvalue()[self.pos:]
+        msgs, rest, errs = parse_stream(data)
+        self.pos += len(data) - len(rest)
+        self.framing_errors += errs
+        for m in msgs:
+            if "method" in m:
+                self.trace.append(("notif", m["method"], m.get("params")))
+            elif "error" in m:
+                e = m["error"] if isinstance(m["error"], dict) else {}
+                self.trace.append(("err", m.get("id"), e.get("code"), e.get("message"), e.get("data")))
+            else:
+                self.trace.append(("resp", m.get("id"), m.get("result")))
+
+    def read_message(self):
+        self.drain()
+        if not self.script:
+            raise EOFError()
+        m = self.script.pop(0)
+        self.trace.append(("in", m))
+        return m
+
+    def write_response(self, rid, result):
+        return self.real.write_response(rid, result)
+
+    def write_error(self, rid, code, message, data=None):
+        return self.real.write_error(rid, code, message, data)
+
+    def send_notification(self, method, params):
+        return self.real.send_notification(method, params)
+
+    def send_request(self, *a, **k):
+        return None
 
 
 def monitor(trace, res, witness, fault_desc):
@@ -300,7 +351,8 @@ def run_inproc(ctx, i, rng, res):
         if rng.random() < 0.3:
             args.append("--enable_code_actions")
         settings = vars(H.cli("fortls").parse_args(args + ["--disable_autoupdate", "--nthreads", "1"]))
-        conn = TraceConn(msgs)
+        real = rng.random() < 0.5
+        conn = RealWriteConn(msgs) if real else TraceConn(msgs)
         srv = H.LangServer(conn, settings)
         fps = []
         fault_desc = None
@@ -322,6 +374,13 @@ def run_inproc(ctx, i, rng, res):
         finally:
             for f in fps:
                 f.remove()
+        if real:
+            conn.drain()
+            res.kind("conn:real-writer")
+            for e in conn.framing_errors[:1]:
+                res.violation("real-writer:framing", e, dict(witness, fault=fault_desc))
+            if conn.buf.getvalue()[conn.pos:]:
+                res.violation("real-writer:trailing-bytes", f"{len(conn.buf.getvalue()) - conn.pos} bytes after the last complete message", dict(witness, fault=fault_desc))
         res.count("evaluations", len(msgs))
         res.count("faults_fired", sum(f.fired for f in fps))
         for f in fps:
